@@ -277,14 +277,21 @@ def run_case(case, ctx):
     sp, idp = _sp(ctx, case["opts"], case.get("mdkeys"), case.get("config_class"), case.get("spenc"), case.get("backend"))
     if case.get("backend") and type(sp.sec.crypto).__name__ != "CryptoBackend" + case["backend"]:
         return {"outcome": "HARNESS-ERROR", "error": "the SP was not built with the %s backend but with %s" % (case["backend"], type(sp.sec.crypto).__name__)}
-    xml, rid, aid = build_message(case, idp)
     wrapped_name = None
     if case["corr"] == "wrapped":
+        # the catalogue is made once per worker, from one A-signed message (building it anew for every cell made the quick tier quadratic)
         from vlib import xmlmut as xm
-        cat = [(n_, m_) for n_, f_, m_ in xm.mutants(xml, xk.SAML, "Assertion", families=("xsw", "sig", "ref", "id")) if m_ is not None]
+        cat = getattr(ctx, "wrapped_catalogue", None)
+        if cat is None:
+            xml0, rid0, aid0 = build_message(case, idp)
+            cat = [(n_, m_) for n_, f_, m_ in xm.mutants(xml0, xk.SAML, "Assertion", families=("xsw", "sig", "ref", "id")) if m_ is not None]
+            ctx.wrapped_catalogue = cat
         if not cat:
             return {"outcome": "HARNESS-ERROR", "error": "no wrapping mutant could be built"}
         wrapped_name, xml = cat[case["wrap_index"] % len(cat)]
+        rid = aid = None
+    else:
+        xml, rid, aid = build_message(case, idp)
     ctx.mark()
     if case.get("entry"):
         from saml2_tophat import BINDING_SOAP
